@@ -289,7 +289,7 @@ def constructor_inputs():
     for x in (0, 3, -2, True, 1.5, 2 - 1j, numpy.int64(4), numpy.float64(-0.5), numpy.complex128(1j), numpy.bool_(True),
               numpy.uint32(7)):
         add(f"scalar {type(x).__name__} {x}", (lambda x=x: x), V.const(x))
-    for dt in ("i8", "f8", "c16", "?", "u4"):
+    for dt in ("i8", "f8", "c16", "?", "u4", ">f8", ">i8", "f4", "i2"):
         for shape in [(), (1,), (3,), (2, 2), (1, 2, 1)]:
             a = (numpy.arange(int(numpy.prod(shape)) or 1).reshape(shape) % 3).astype(dt)
             add(f"ndarray {dt} {shape}", (lambda a=a: a.copy()), V.const(a))
